@@ -30,3 +30,17 @@ Example chain_example :
 Proof. split; vm_compute; reflexivity. Qed.
 Example vrec_example : asFea true (mkV None None (Some 25) None) = [TLt; TNum 0; TNum 0; TNum 25; TNum 0; TGt].
 Proof. reflexivity. Qed.
+
+(* ---- `sub a b c by a_b_c;` rules: the ligature subtable feaLib / otlLib builds from a set of rules (ModelLigBuild.v:
+   buildLigatureSubstSubtable with its stable longest-first order), read with the reference meaning of a ligature subtable (C07
+   ModelLig, tied to HarfBuzz), applies at every position a LONGEST rule among those whose components are found there -- whatever
+   the order of the rules in the feature file -- and nothing where no rule matches *)
+From FV Require C07.ModelLig C11.ModelLigBuild C11.ProofsLigBuild.
+Theorem built_ligatures_longest_match : forall m g rest,
+  match ModelLig.find_lig (ModelLigBuild.build_lig m) g rest with
+  | Some (lg, n) => exists comps, In (g :: comps, lg) m /\ length comps = n /\ ModelLig.prefix_eqb comps rest = true /\
+                                  forall r, In r m -> ProofsLigBuild.matches g rest r -> (length (fst r) <= S n)%nat
+  | None => forall r, In r m -> ~ ProofsLigBuild.matches g rest r
+  end.
+Proof. exact ProofsLigBuild.built_ligatures_longest_match. Qed.
+Print Assumptions built_ligatures_longest_match.
